@@ -122,6 +122,11 @@ def run_case(ctx, mr, case):
         else:
             root = SDRoot(base, sd_key=msed, dev=dev)
         ctx.stat('api_sdfs')
+        if rng.random() < 0.5:
+            # a clone of the card's engine given another console's key: the card itself keeps its own
+            other = root._crypto.clone()
+            other.setup_sd_key(sd.movable_sed(rng, pyenv.rbytes(rng, 16), 0x10))
+            ctx.stat('clone_rekeyed')
         ctx.stat('dev' if dev else 'retail')
         if root.id0 != id0:
             ctx.diff('oracle', 'sd-id0', case, id0, root.id0, 'SDRoot.id0 differs')
@@ -248,6 +253,49 @@ def run_case(ctx, mr, case):
                         ctx.diff('oracle', 'sd-move-left-source', dict(case, path=rel), 'removed', 'still there', 'move left the source file behind')
                     del files[rel]
                     rel = dst
+        # whole directories: every file beneath arrives under its new path's counter
+        dirs = sorted({r_.rsplit('/', 1)[0] for r_ in files if r_.count('/') >= 2})
+        for api in ('copydir', 'movedir'):
+            if not dirs:
+                break
+            src = dirs[0]
+            dst = '/' + api + '_' + ''.join(rng.choice('abcXYZ09') for _ in range(5))
+            inside = {r_: d_ for r_, d_ in files.items() if r_.startswith(src + '/')}
+            if any(k.lower().startswith(dst.lower() + '/') for k in files):
+                continue
+            ctx.stat('api_' + api)
+            try:
+                getattr(top, api)(src, dst, create=True)
+                ok = all(top.readbytes(dst + r_[len(src):]) == d_ and base.readbytes(f'{id0}/{id1}{dst + r_[len(src):]}') == sd.sd_crypt(nk, dst + r_[len(src):], d_)
+                         for r_, d_ in inside.items())
+            except Exception as ex:
+                ctx.diff('oracle', f'sd-{api}-raises', dict(case, path=src, dst=dst), 'a copy', pyenv.errname(ex) + ': ' + str(ex)[:60], f'{api}({src!r}, {dst!r}) raised')
+                break
+            if not ok:
+                ctx.diff('oracle', f'sd-{api}', dict(case, path=src, dst=dst), 'every file re-encrypted under its new path', 'not so',
+                         f'{api}({src!r}, {dst!r}): a file beneath does not decrypt to its content under its new path')
+                break
+            for r_, d_ in inside.items():
+                files[dst + r_[len(src):]] = d_
+                if api == 'movedir':
+                    del files[r_]
+            if api == 'movedir':
+                dirs = sorted({r_.rsplit('/', 1)[0] for r_ in files if r_.count('/') >= 2})
+        # text mode is not offered: asking for text never hands out the stored (encrypted) bytes as if they were the text
+        for rel in list(files)[:1]:
+            try:
+                txt = top.readtext(rel)
+                good = False
+                try:
+                    good = txt == files[rel].decode('utf-8')
+                except Exception:
+                    pass
+                if not good:
+                    ctx.diff('oracle', 'sd-readtext', dict(case, path=rel), 'the decrypted text or NotImplementedError', repr(txt)[:40], 'readtext() returned something that is not the decrypted content')
+            except NotImplementedError:
+                ctx.stat('readtext_refused')
+            except Exception as ex:
+                ctx.diff('oracle', 'sd-readtext', dict(case, path=rel), 'the decrypted text or NotImplementedError', pyenv.errname(ex), 'readtext() did not go through the decrypting open()')
         # the counter function itself: case / separator insensitivity, independent derivation
         for rel in list(files)[:2]:
             for v in (rel, rel.upper(), rel.lower(), rel.replace('/', '\\'), rel.swapcase()):
